@@ -175,10 +175,45 @@ def run(ctx):
             ctx.ok('MPT-C20b', rt, 'Ok only through footer decode, toc_len equality, hash_matches, verify_toc_prefix, Toc::decode')
     ol = F.fn('Memvid::open_locked')
     if ol is not None:
-        if ol.calls_to('Toc::verify_checksum'):
+        vcs = ol.calls_to('Toc::verify_checksum')
+        if vcs:
             ctx.ok('MPT-C20b', ol, 'open_locked evaluates toc.verify_checksum()')
         else:
             ctx.bad('MPT-C20b', ol, 'open_locked no longer verifies the TOC checksum', detail='open-no-verify-checksum')
+        # a TOC whose first verification failed (recovered / repaired TOC) is served only after a later verification
+        # succeeded: from the `first result is Err` edge every Ok exit lies behind the success edge of a verify_checksum call
+        ctx.touch(ol, len(ol.blocks))
+        first = [v for v in vcs if not any(x.name == 'branch' and op_place(x.args[0]) is not None and op_place(x.args[0]).l == v.dest.l for x in ol.calls())]
+        err_edges = []
+        for bs in lib.bool_switches(ol):
+            sl = lib.slice_back(ol, [{'c': {'l': bs['local'], 'p': []}}], through_calls=False, at=(bs['bb'], None))
+            for e in sl.calls:
+                if e.name in ('is_err', 'is_ok') and e.args:
+                    s2 = lib.slice_back(ol, e.args[:1], through_calls=False, at=(e.bb, None))
+                    if any(v in s2.calls for v in vcs):
+                        neg = ('Not' in sl.ops) != (e.name == 'is_ok')
+                        err_edges.append((bs['bb'], bs['t_false'] if neg else bs['t_true']))
+        for vs in lib.variant_switches(ol):
+            if vs.get('enum') == 'Result' and 'Err' in vs['arms'] and any(v.dest.l in (lib.root_of(ol, vs['place'].l) | {vs['place'].l}) for v in vcs):
+                err_edges.append((vs['bb'], vs['arms']['Err']))
+        ctx.evaluations += len(err_edges) + 1
+        if vcs and not err_edges:
+            ctx.lost('MPT-C20b', 'open_locked: the test of the first verify_checksum result (is_err) was not found')
+        exits = {ex['bb'] for ex in ol.ok_exits() if ex['kind'] in ('ok', 'call')}
+        for b, t in err_edges:
+            later = [v for v in vcs if v.bb in ol.reachable(t)]
+            blocked = set()
+            ok_after = set()
+            for v in later:
+                sbv, _ = ol.success_block(v)
+                blocked.add(v.bb)
+            # reachable from the Err edge without passing a later verify call
+            seen = ol.reachable(t, avoid=blocked)
+            if seen & exits:
+                ctx.bad('MPT-C20b', ol, 'after the first TOC checksum verification failed, open_locked can return Ok without a second, successful verify_checksum: a TOC recovered through a path that '
+                        'checks no hash is served as is', line=ol.blocks[b]['t'].get('l'), sink='Toc::verify_checksum', detail='recovered-toc-not-reverified')
+            else:
+                ctx.ok('MPT-C20b', ol, 'a TOC whose first verification failed is served only after a later verify_checksum succeeded', line=ol.blocks[b]['t'].get('l'))
     for key, owner in (('Memvid::load_memories_track', 'MemoriesTrackManifest'), ('Memvid::load_logic_mesh', 'LogicMeshManifest')):
         fn = ctx.need('MPT-C20b', key)
         if fn is None:
